@@ -7,10 +7,11 @@ from batchie import retrospective as R
 from batchie.models.sparse_combo import SparseDrugComboMCMCSample
 from harness.util import outcome, bits, Interner
 
-# (pool 3: names and doses whose textual concatenations coincide - "d1" + "11.0" = "d11" + "1.0" - and names that are prefixes of each other)
-SAMPLE_POOLS = [["", "A", "a", "é"], ["HT-29", "MCF7", "mcf7-long-name", "中"], ["s0", "s1", "s10", "s2"], ["s1", "s11", "s", "s1.0"]]
-TREAT_POOLS = [["", "A", "a", "zz"], ["5-FU", "Drug B", "drug", "é́"], ["d0", "d1", "d2", "d3"], ["d1", "d11", "d", "d1.0"]]
-PLATE_POOLS = [["", "P", "p1", "p10"], ["plate 0", "plate 1", "plate 2", "plate-é"], ["0", "1", "2", "3"], ["p1", "p11", "p", "1"]]
+# (every pool is listed in ascending order: token order = name order = id order, which the specification's ids rely on;
+#  pool 3: names and doses whose textual concatenations coincide - "d" + "11.0" = "d1" + "1.0" - and names that are prefixes of each other)
+SAMPLE_POOLS = [["", "A", "a", "é"], ["HT-29", "MCF7", "mcf7-long-name", "中"], ["s0", "s1", "s10", "s2"], ["s", "s1", "s1.0", "s11"]]
+TREAT_POOLS = [["", "A", "a", "zz"], ["5-FU", "Drug B", "drug", "é́"], ["d0", "d1", "d2", "d3"], ["d", "d1", "d1.0", "d11"]]
+PLATE_POOLS = [["", "P", "p1", "p10"], ["plate 0", "plate 1", "plate 2", "plate-é"], ["0", "1", "2", "3"], ["1", "p", "p1", "p11"]]
 DOSE_POOLS = [{0: -1.0, 1: 0.0, 2: 1.0, 3: 2.5}, {0: -5e-324, 1: -0.0, 2: 5e-324, 3: 1e-3}, {0: -2.0, 1: 0.0, 2: 0.1, 3: 1e300},
               {0: -1.0, 1: 0.0, 2: 1.0, 3: 11.0}]
 NEWVAL = 900
@@ -25,6 +26,7 @@ class Fixture:
         self.zero, self.nan, self.name = list(zero), list(nan), name
         self.arity = len(rows[0][1])
         self.sp, self.tp, self.pp, self.dp = SAMPLE_POOLS[pools % 4], TREAT_POOLS[pools % 4], PLATE_POOLS[pools % 4], DOSE_POOLS[pools % 4]
+        assert all(p == sorted(p) for p in (self.sp, self.tp, self.pp)), "name pools must be ascending (token order = id order)"
         self.ctl_name = self.tp[ctl] if ctl < len(self.tp) else ABSENT_CTL
         self.valtok = Interner()
         self.vals = {}
